@@ -12,12 +12,17 @@
 //        5 char* (CharStringSet)  6 const char* (CCharStringSet)
 //   ov   algo 0, reps 0/1: ov % 10 = overload: 0 unsigned char**  1 char**  2 const unsigned char**  3 const char**
 //           4 vector<char*>  5 vector<unsigned char*>  6 vector<const char*>  7.. vector<const unsigned char*>;
-//           rep 2: even std::string* / odd vector<std::string>;  ov >= 10: the memory argument is omitted (default 0)
+//           rep 2: even std::string* / odd vector<std::string>;  (ov % 20) >= 10: the memory argument is omitted (default 0)
+//           reps 0/1/5/6: ov >= 20 (algo 0) resp. ov >= 10 (detail sorters): strings of equal contents are ONE buffer that
+//           occurs several times in the pointer array (aliased objects)
 //        algo != 0 (not rep 4): the string-pointer view the sorter is called through
 //           0 StringPtr / StringLcpPtr over exactly the n strings
 //           1 strptr.sub(G1, n) of a larger array with guard strings before and after (also exercises size(), active(),
 //             fill_lcp(), get_lcp(), lcp()); guards and the lcp cells outside (G1, G1+n) must stay untouched
 //           2 (algos 4..7) add_shadow() + flip(G1, n) + copy_back(): the strings start in the shadow array
+//           3 / 4 / 5 (rep 5, with LCP): StringLcpPtr<CharStringSet, LcpType> with LcpType = uint8_t / uint16_t / uint64_t
+//        rep 4: 0 StringSuffixSet::Initialize (all suffixes in index order)  1 all suffixes, initially in reverse order
+//               2 only the suffixes at even positions (set constructed from an iterator range)
 // output line: ids:<i0,i1,...>|lcp:<v0,v1,...or ->|strs:<hex,... only for rep 2, else ~>     or  APIFAIL:<what>
 #include <tlx/sort/strings.hpp>
 #include <tlx/sort/strings/insertion_sort.hpp>
@@ -25,6 +30,7 @@
 #include <tlx/sort/strings/radix_sort.hpp>
 
 #include <algorithm>
+#include <deque>
 #include <cstdint>
 #include <cstdio>
 #include <cstdlib>
@@ -39,7 +45,7 @@
 
 using namespace tlx::sort_strings_detail;
 
-// the check compiles this file twice in parallel (C03_PART bit mask: 1 = reps 0,1;  2 = rep 2;  4 = reps 3,4;  8 = reps 5,6) to cut the build time
+// the check compiles this file twice in parallel (C03_PART bit mask: 1 = reps 0,1;  2 = reps 2,6;  4 = reps 3,4;  8 = rep 5 incl. the LcpType variants) to cut the build time
 #ifndef C03_PART
 #define C03_PART 15
 #endif
@@ -182,6 +188,19 @@ static void print_result(const std::vector<long>& ids, bool lcp, const std::vect
 static std::string ptr_token(const void* p) { char b[32]; snprintf(b, sizeof b, "%p", p); return b; }
 static unsigned char g_guard_bufs[8][8] = { "\x7fg0", "", "\x01g2", "zz", "\xffg4", "a", "b", "c" };
 
+// the LcpType template parameter of StringLcpPtr (the public front-ends fix std::uint32_t)
+template <typename SS, typename LcpT>
+static void run_lcptype(int algo, size_t depth, size_t mem, std::vector<typename SS::String>& arr, std::vector<std::uint32_t>& lcpa) {
+    const size_t n = arr.size();
+    const LcpT poison = static_cast<LcpT>(POISON);
+    std::vector<LcpT> l(n, poison);
+    SS ss(arr.data(), arr.data() + n);
+    StringLcpPtr<SS, LcpT> p(ss, l.data());
+    API_CHECK(p.with_lcp); API_CHECK(p.size() == n); API_CHECK(p.lcp() == l.data());
+    run_detail(algo, p, depth, mem);
+    for (size_t i = 0; i < n; ++i) lcpa[i] = (i == 0 && l[i] == poison) ? POISON : static_cast<std::uint32_t>(l[i]);
+}
+
 // C strings: reps 0, 1 (unsigned), 5, 6 (char)
 template <typename SS, typename CharT>
 static void run_cstring_set(int algo, int view, bool lcp, size_t depth, size_t mem,
@@ -209,27 +228,36 @@ int main(int argc, char** argv) {
         std::vector<std::string> strs(n);
         for (size_t i = 0; i < n; ++i) { std::string h; is >> h; strs[i] = unhex(h); }
         g_apifail = nullptr;
-        const int view = algo == 0 ? 0 : ov;
-        (void)view;
+        const bool cstr_rep = rep == 0 || rep == 1 || rep == 5 || rep == 6;
+        const bool alias = cstr_rep && (algo == 0 ? ov >= 20 : ov >= 10);     // equal contents share one buffer
+        const int view = algo == 0 ? 0 : (cstr_rep ? ov % 10 : ov);
+        (void)view; (void)alias;
 
-#if C03_PART & 9
-        if (((C03_PART & 1) && (rep == 0 || rep == 1)) || ((C03_PART & 8) && (rep == 5 || rep == 6))) {
+#if C03_PART & 11
+        if (((C03_PART & 1) && (rep == 0 || rep == 1)) || ((C03_PART & 8) && rep == 5) || ((C03_PART & 2) && rep == 6)) {
             // individually allocated, exactly sized NUL-terminated buffers (ASan sees any over-read)
             std::vector<unsigned char*> ptrs(n);
-            std::unordered_map<const void*, long> idx;
+            std::unordered_map<const void*, std::deque<long> > idx;       // buffer -> original positions holding it
+            std::unordered_map<std::string, unsigned char*> shared;
+            std::vector<unsigned char*> orig;                             // every buffer once
             for (size_t i = 0; i < n; ++i) {
-                ptrs[i] = new unsigned char[strs[i].size() + 1];
-                memcpy(ptrs[i], strs[i].data(), strs[i].size());
-                ptrs[i][strs[i].size()] = 0;
-                idx[ptrs[i]] = static_cast<long>(i);
+                auto it = alias ? shared.find(strs[i]) : shared.end();
+                if (it != shared.end()) ptrs[i] = it->second;
+                else {
+                    ptrs[i] = new unsigned char[strs[i].size() + 1];
+                    memcpy(ptrs[i], strs[i].data(), strs[i].size());
+                    ptrs[i][strs[i].size()] = 0;
+                    orig.push_back(ptrs[i]);
+                    if (alias) shared[strs[i]] = ptrs[i];
+                }
+                idx[ptrs[i]].push_back(static_cast<long>(i));
             }
-            std::vector<unsigned char*> orig(ptrs);
             std::vector<std::uint32_t> lcpa(n, POISON);
             if (false) {}
 #if C03_PART & 1
             else if (algo == 0 && rep <= 1) {
                 // the public overloads, with the memory argument passed or omitted (default 0)
-                const bool omit = ov >= 10;
+                const bool omit = (ov % 20) >= 10;
                 if (omit && mem != 0) std::abort();
                 auto call = [&](auto&&... a) {
                     if (lcp) { if (omit) tlx::sort_strings_lcp(a..., lcpa.data()); else tlx::sort_strings_lcp(a..., lcpa.data(), mem); }
@@ -253,13 +281,28 @@ int main(int argc, char** argv) {
             else if (rep == 1) run_cstring_set<CUCharStringSet, const unsigned char>(algo, view, lcp, depth, mem, ptrs, lcpa);
 #endif
 #if C03_PART & 8
+            else if (rep == 5 && view >= 3) {
+                std::vector<char*> arr(n);
+                for (size_t i = 0; i < n; ++i) arr[i] = reinterpret_cast<char*>(ptrs[i]);
+                if (!lcp) std::abort();
+                if (view == 3) run_lcptype<CharStringSet, std::uint8_t>(algo, depth, mem, arr, lcpa);
+                else if (view == 4) run_lcptype<CharStringSet, std::uint16_t>(algo, depth, mem, arr, lcpa);
+                else run_lcptype<CharStringSet, std::uint64_t>(algo, depth, mem, arr, lcpa);
+                for (size_t i = 0; i < n; ++i) ptrs[i] = reinterpret_cast<unsigned char*>(arr[i]);
+            }
             else if (rep == 5) run_cstring_set<CharStringSet, char>(algo, view, lcp, depth, mem, ptrs, lcpa);
+#endif
+#if C03_PART & 2
             else if (rep == 6) run_cstring_set<CCharStringSet, const char>(algo, view, lcp, depth, mem, ptrs, lcpa);
 #endif
             std::vector<long> ids(n);
-            for (size_t i = 0; i < n; ++i) { auto it = idx.find(ptrs[i]); ids[i] = it == idx.end() ? -1 : it->second; }
+            for (size_t i = 0; i < n; ++i) {
+                auto it = idx.find(ptrs[i]);
+                if (it == idx.end() || it->second.empty()) ids[i] = -1;
+                else { ids[i] = it->second.front(); it->second.pop_front(); }
+            }
             print_result(ids, lcp, lcpa, nullptr);
-            for (size_t i = 0; i < n; ++i) delete[] orig[i];
+            for (size_t i = 0; i < orig.size(); ++i) delete[] orig[i];
             fflush(stdout);
             continue;
         }
@@ -305,9 +348,15 @@ int main(int argc, char** argv) {
         if (rep == 4) {
             std::string text = n ? strs[0] : std::string();
             std::vector<size_t> sa;
-            StringSuffixSet ss = StringSuffixSet::Initialize(text, sa);
-            API_CHECK(ss.size() == text.size()); API_CHECK(sa.size() == text.size());
-            for (size_t i = 0; i < sa.size(); ++i) API_CHECK(sa[i] == i);
+            if (ov == 0) {
+                StringSuffixSet ss0 = StringSuffixSet::Initialize(text, sa);
+                API_CHECK(ss0.size() == text.size()); API_CHECK(sa.size() == text.size());
+                for (size_t i = 0; i < sa.size(); ++i) API_CHECK(sa[i] == i);
+            }
+            else if (ov == 1) for (size_t i = text.size(); i > 0; --i) sa.push_back(i - 1);
+            else for (size_t i = 0; i < text.size(); i += 2) sa.push_back(i);
+            StringSuffixSet ss(text, sa.begin(), sa.end());
+            API_CHECK(ss.size() == sa.size());
             std::vector<std::uint32_t> lcpa(sa.size(), POISON);
             if (lcp) run_detail(algo, StringLcpPtr<StringSuffixSet, std::uint32_t>(ss, lcpa.data()), depth, mem);
             else run_detail(algo, StringPtr<StringSuffixSet>(ss), depth, mem);
